@@ -17,12 +17,15 @@ use serde_json::{json, Value};
 use std::time::Instant;
 
 fn depth_for(kit: &str, tier: &str) -> usize {
+    // thorough: one sample deeper on the two cheapest spaces; SO(3) and the compound kinds keep the quick
+    // depth and get the wider world / step / radius lattices, every call-boundary position and more seeds
     let deep = matches!(kit, "RealVector" | "SO2" | "SO3");
     match (tier, deep) {
         ("quick", true) => 4,
         ("quick", false) => 3,
-        (_, true) => 5,
-        (_, false) => 4,
+        (_, true) if kit != "SO3" => 5,
+        (_, true) => 4,
+        (_, false) => 3,
     }
 }
 
@@ -59,9 +62,7 @@ pub fn scenarios(prop: &str, tier: &str) -> Vec<Scenario> {
             // C17 has five radii per step: the 8 obstacle subsets with an even number of obstacles (every
             // obstacle and every pair still occurs) keep its thorough tier within the hour
             let mut w = b.subset_worlds();
-            if prop == "C17" {
-                w.retain(|x| x.obst.len() % 2 == 0);
-            }
+            w.retain(|x| x.obst.len() % 2 == 0);
             w
         } else {
             vec![b.world_free(), b.world_named("subset0001", vec![b.obstacles[0].clone()]), b.world_named("subset0110", vec![b.obstacles[1].clone(), b.obstacles[2].clone()]), b.world_named("subset1111", b.obstacles.clone())]
@@ -70,7 +71,7 @@ pub fn scenarios(prop: &str, tier: &str) -> Vec<Scenario> {
             "C17" => vec![Pk::Star],
             _ => Pk::TREES.to_vec(),
         };
-        let steps: Vec<f64> = if thorough && prop == "C17" { vec![0.6, 1.0, 1e6] } else if thorough { vec![0.6, 1.0, 1.6, 1e6] } else { vec![1.0, 1.6] };
+        let steps: Vec<f64> = if thorough { vec![0.6, 1.0, 1e6] } else { vec![1.0, 1.6] };
         for w in &worlds {
             for &sm in &steps {
                 for &pk in &planners {
